@@ -51,6 +51,14 @@ package sumdb
 //@   requires c != nil && c.verifiers != nil
 //@   modifies Client.latest, Client.latestMsg, ghost.LOCKSNAP, "map[tlog.Tile]bool", ghost.WRITTEN, []tlog.Hash
 //@   ensures [C13, C01] accepted_is_signed: err == nil && len(msg) != 0 ==> (exists t tlog.Tree :: SIGNEDTREE(c.verifiers, string(msg), t))
+//@   # the when result places msg relative to the head held in memory (returns in source order): the empty message is
+//@   # "now" exactly while no head is held; a signed head is past / now / future by its size against the head it was
+//@   # checked against, and "future" is reported only after it was installed
+//@   ensures site 0 [C13] empty_is_now_only_without_head: len(msg) == 0 && latest.N == 0 && when == msgNow && err == nil
+//@   ensures site 1 [C13] empty_is_past_once_a_head_is_held: len(msg) == 0 && latest.N != 0 && when == msgPast && err == nil
+//@   ensures site 5 [C13] older_head_is_past: tree.N < latest.N && when == msgPast && err == nil
+//@   ensures site 6 [C13] same_size_head_is_now: tree.N == latest.N && when == msgNow && err == nil
+//@   ensures site 8 [C13] newer_head_is_future_once_installed: installed && tree.N > latest.N && when == msgFuture && err == nil
 //@   loop 0:
 //@     invariant SIGNEDTREE(c.verifiers, string(msg), tree) && HEAD(c.verifiers, latest, string(latestMsg))
 //@   props C13 C01
